@@ -68,6 +68,23 @@ func init() {
 				o.stat("pdec-reused-" + d.Class)
 			}
 		}
+		// absent extensions AFTER the decodes above: the encoder fills in a blank body of the pinned type, whatever was decoded before
+		for _, k := range keyedTypes() {
+			t := schema.Types[k.Ty]
+			v := g.msgWithKey(k.Ty, k.E, true)
+			for i, op := range t.fieldOps() {
+				if op.K == "union" {
+					v.Fs[i] = &Val{K: 'z'}
+				}
+			}
+			want, ok := renderPinned(v)
+			r := goEnc(v, nil, g.mode())
+			if ok != (r.Class == "ok") || (ok && !bytes.Equal(want, r.Appended)) {
+				o.violate(Violation{Property: "C02", Kind: "direct", What: "with the body/extension left out, the library's bytes differ from the pinned schema's rendering (blank body of the pinned type)",
+					Case: "penc - " + v.String(), Expected: hexOf(want), Observed: r.Class + " " + hexOf(r.Appended), Key: "layout-absent:" + tname(v.Ty)})
+			}
+			o.stat("penc-absent-" + r.Class)
+		}
 		// arbitrary bytes through the decoders: layout on the read side
 		for _, t := range schema.Types {
 			for i := 0; i < per/2+1; i++ {
